@@ -10,6 +10,7 @@ import (
 	"strings"
 
 	"github.com/Vedant9500/WTF/zz_verif/sim/simrt"
+	"pgregory.net/rapid"
 )
 
 var flagRaceLog = flag.String("verif.racelog", "", "GORACE log_path prefix (the detector appends .<pid>)")
@@ -100,6 +101,30 @@ func raceSite(rep string) string {
 		}
 	}
 	return strings.Join(sites, "+")
+}
+
+// genSchedule draws a schedule vector. Uniformly random vectors switch clients at almost every step
+// and practically never let one client run through a long stretch while another stays parked at one
+// particular point; half of the vectors are therefore built from runs (the same choice repeated for
+// 1..55 steps), which is what windows between two critical sections need.
+func genSchedule(rt *rapid.T, maxLen int) []uint16 {
+	if rapid.Bool().Draw(rt, "sched-uniform") {
+		return rapid.SliceOfN(rapid.Uint16Range(0, 3), 0, maxLen).Draw(rt, "schedule")
+	}
+	type run struct {
+		v uint16
+		n int
+	}
+	runs := rapid.SliceOfN(rapid.Custom(func(rt *rapid.T) run {
+		return run{rapid.Uint16Range(0, 3).Draw(rt, "who"), rapid.SampledFrom([]int{1, 1, 2, 3, 5, 8, 13, 21, 34, 55}).Draw(rt, "len")}
+	}), 0, 24).Draw(rt, "runs")
+	var out []uint16
+	for _, r := range runs {
+		for i := 0; i < r.n && len(out) < maxLen; i++ {
+			out = append(out, r.v)
+		}
+	}
+	return out
 }
 
 // interleavingSig is the sub-sequence of scheduler decisions taken when more than one
